@@ -138,15 +138,20 @@ class TO_FLOAT:
 class TO_INTEGER:
     """C01: the result is an instance of the requested class t (t <= int), on every exit;
     C12: under no_explicit_cast only numbers convert."""
-    cases = {"int": dict(self=TR(), data=INT, t=TSUB(int, "t")), "bool": dict(self=TR(), data=BOOL, t=TSUB(int, "t")),
+    cases = {"int,exact": dict(self=TR(), data=INT, t=Cls(int)), "float,exact": dict(self=TR(), data=FLOAT, t=Cls(int)),
+             "int": dict(self=TR(), data=INT, t=TSUB(int, "t")), "bool": dict(self=TR(), data=BOOL, t=TSUB(int, "t")),
              "float": dict(self=TR(), data=FLOAT, t=TSUB(int, "t")), "str": dict(self=TR(), data=STR, t=TSUB(int, "t")),
              "none": dict(self=TR(), data=NONE, t=TSUB(int, "t"))}
     returns = {"conforms": "isinst(result, t)"}
     returns_by_case = {"str": {"no_cast_only_numbers": "not self.no_explicit_cast"},
-                       "none": {"no_cast_only_numbers": "not self.no_explicit_cast"}}
+                       "none": {"no_cast_only_numbers": "not self.no_explicit_cast"},
+                       # `a number becomes an int only if it has no fractional part and the numeric value is preserved`
+                       # (t is int itself: what a subclass constructor makes of the number is the subclass's business)
+                       "float,exact": {"no_loss_keeps_the_number": "implies(self.no_data_loss, result == data)"},
+                       "int,exact": {"an_int_keeps_its_value": "result == data"}}
     only_raises = ["Exception"]
     frame = ["data", "self"]
-    tags = {"conforms": ["C01"], "no_cast_only_numbers": ["C12"]}
+    tags = {"conforms": ["C01"], "no_cast_only_numbers": ["C12"], "no_loss_keeps_the_number": ["C12"], "an_int_keeps_its_value": ["C12", "C01"]}
 
 
 @contract(T, "TypeTransformer._from_byte_like", props=["C12", "C04"])
@@ -354,3 +359,17 @@ class TO_DATE:
         if ex.case_name == "other":
             ex.assume(z3.Not(sym.sub(sym.ty(d.t), ex.world.classes.of_py(_dt.datetime).t)))
         ex.last_to_datetime = None
+
+
+@contract(T, "TypeTransformer.to_str", props=["C12", "C01", "C04"])
+class TO_STR:
+    """C01: the result is an instance of the requested class t (t <= str); C12: under no_explicit_cast only text converts
+    (a number or None is not turned into its spelling)."""
+    cases = {"str": dict(self=TR(), data=STR, t=TSUB(str, "t")), "int": dict(self=TR(), data=INT, t=TSUB(str, "t")),
+             "none": dict(self=TR(), data=NONE, t=TSUB(str, "t"))}
+    returns = {"conforms": "isinst(result, t)"}
+    returns_by_case = {"int": {"no_cast_only_text": "not self.no_explicit_cast"},
+                       "none": {"no_cast_only_text": "not self.no_explicit_cast"}}
+    only_raises = ["Exception"]
+    frame = ["data", "self"]
+    tags = {"conforms": ["C01"], "no_cast_only_text": ["C12"]}
